@@ -129,6 +129,9 @@ type Exec struct {
 	baseGlobals map[*ssa.Global]*value
 	baseInited  map[*ssa.Package]bool
 	pathObs     []obsEntry
+	facts       map[int]bool
+	model       map[string]interface{}
+	ModelHits   int
 	modelState
 }
 
@@ -187,6 +190,8 @@ func (ex *Exec) runPath(prefix []int) {
 	ex.imprecise = nil
 	ex.pathFlags = map[string]bool{}
 	ex.pathObs = nil
+	ex.facts = nil
+	ex.model = nil
 	ex.modelReset()
 	if ex.solver != nil {
 		ex.solver.Push()
@@ -240,6 +245,12 @@ func (ex *Exec) assume(c *smt.Term) {
 		}
 		return
 	}
+	ex.noteFact(c, true)
+	if ex.model != nil {
+		if v, ok := smt.Eval(c, ex.model); !ok || !v.(bool) {
+			ex.model = nil
+		}
+	}
 	ex.pc = append(ex.pc, c)
 	if ex.solver != nil {
 		ex.solver.Assert(c)
@@ -263,6 +274,30 @@ func (ex *Exec) checkSat(extra ...*smt.Term) smt.Result {
 	return ex.solver.CheckWith(extra...)
 }
 
+// noteFact records an atom asserted on this path (cheap syntactic pruning of later branches).
+func (ex *Exec) noteFact(c *smt.Term, truth bool) {
+	if ex.facts == nil {
+		ex.facts = map[int]bool{}
+	}
+	ex.facts[c.ID] = truth
+	switch c.Op {
+	case smt.OpNot:
+		ex.noteFact(c.Args[0], !truth)
+	case smt.OpAnd:
+		if truth {
+			for _, a := range c.Args {
+				ex.noteFact(a, true)
+			}
+		}
+	case smt.OpOr:
+		if !truth {
+			for _, a := range c.Args {
+				ex.noteFact(a, false)
+			}
+		}
+	}
+}
+
 // decide picks one of the mutually exclusive, jointly exhaustive alternatives.
 func (ex *Exec) decide(kind string, alts []*smt.Term) int {
 	// constant folding: exactly one alternative may be constant-true
@@ -270,6 +305,12 @@ func (ex *Exec) decide(kind string, alts []*smt.Term) int {
 	for i, a := range alts {
 		if cb, ok := a.ConstBool(); ok {
 			if cb {
+				return i
+			}
+			continue
+		}
+		if t, known := ex.facts[a.ID]; known {
+			if t {
 				return i
 			}
 			continue
@@ -294,12 +335,26 @@ func (ex *Exec) decide(kind string, alts []*smt.Term) int {
 	}
 	ex.Forks[kind]++
 	var feas []int
+	models := map[int]map[string]interface{}{}
 	for k, i := range live {
 		if k == len(live)-1 && len(feas) == 0 {
 			feas = append(feas, i) // last one standing
 			break
 		}
-		r := ex.checkSat(alts[i])
+		// the model of the current path condition may already witness this alternative
+		if ex.model != nil {
+			if v, ok := smt.Eval(alts[i], ex.model); ok && v.(bool) {
+				feas = append(feas, i)
+				models[i] = ex.model
+				ex.ModelHits++
+				continue
+			}
+		}
+		r := ex.checkSatKeep(alts[i], func() {
+			if m, err := ex.solver.Model(ex.modelVars()); err == nil {
+				models[i] = m
+			}
+		})
 		if r != smt.Unsat {
 			feas = append(feas, i)
 		}
@@ -307,6 +362,7 @@ func (ex *Exec) decide(kind string, alts []*smt.Term) int {
 	if len(feas) == 0 {
 		panic(pathEnd{kind: "infeasible"})
 	}
+	ex.model = models[feas[0]]
 	for k := len(feas) - 1; k >= 1; k-- {
 		p := append(append([]int{}, ex.trail...), feas[k])
 		ex.pending = append(ex.pending, p)
@@ -683,4 +739,25 @@ func (ex *Exec) resetGlobals() {
 			}
 		}
 	}
+}
+
+// checkSatKeep is checkSat for one extra assertion; onSat runs while the solver still holds the model.
+func (ex *Exec) checkSatKeep(extra *smt.Term, onSat func()) smt.Result {
+	if ex.solver == nil {
+		return ex.checkSat(extra)
+	}
+	ex.solver.Push()
+	ex.solver.Assert(extra)
+	r := ex.solver.CheckLight()
+	if r == smt.Sat {
+		onSat()
+	}
+	ex.solver.Pop()
+	return r
+}
+
+// modelVars: draw variables plus the other symbolic inputs of the path (clock reads).
+func (ex *Exec) modelVars() []*smt.Term {
+	vs := ex.drawVars()
+	return append(vs, ex.extraVars...)
 }
